@@ -429,6 +429,30 @@ class KernelTranslator:
         raise Untranslatable(f"no `{target} = where(...)` found")
 
 
+    def guards_kernel(self):
+        """the `if <test over scalar parameters>: raise ...` statements at the top of a public function
+        -> a scalar kernel that fails exactly when the function rejects its parameters"""
+        self.yvar = self.xvar = None
+        parts, skipped = [], []
+        for st in self.func.body:
+            if isinstance(st, ast.If) and not st.orelse and len(st.body) == 1 and isinstance(st.body[0], ast.Raise):
+                try:
+                    c = self.cond(st.test)
+                except Untranslatable as ex:
+                    skipped.append(f"{ast.unparse(st.test)}  ({ex})")
+                    continue
+                msg = ast.unparse(st.body[0].exc)[:80] if st.body[0].exc else "raise"
+                parts.append(f"(S.ite {c} (S.fail {lean_str(msg)}) S.skip)")
+        self.casts.append("guards not over plain scalars (skipped): " + "; ".join(skipped))
+        if not parts:
+            raise Untranslatable("no parameter guard found")
+        acc = parts[-1]
+        for q in reversed(parts[:-1]):
+            acc = f"(S.seq {q}\n {acc})"
+        used = [a for a in self.args if f'(E.var "{a}")' in acc]
+        return dict(arrays=[], scalars=used, vectors=[], fill="nan", top=0, bottom=0, left=0, right=0,
+                    pre="S.skip", guard="C.tt", body=acc)
+
     def target_test_kernel(self):
         """proximity's target test: the `if n_values == 0: ... else: for i ...: if line[p] == values[i]` block
         -> a per-cell kernel storing 1 (target) or 0"""
@@ -542,6 +566,8 @@ KERNELS = [
     ("true_color_alpha_numpy", "xrspatial/multispectral.py", "_true_color_numpy", ("where", "a", ["r"])),
     ("true_color_alpha_dask", "xrspatial/multispectral.py", "_true_color_dask", ("where", "alpha", ["r"])),
     ("proximity_is_target", "xrspatial/proximity.py", "_process_proximity_line", ("target_test",)),
+    ("evi_validate", "xrspatial/multispectral.py", "evi", ("guards",)),
+    ("savi_validate", "xrspatial/multispectral.py", "savi", ("guards",)),
 ]
 
 
@@ -568,6 +594,8 @@ def translate_kernels(repo):
                 k = tr.scalar_kernel()
             elif kind[0] == "target_test":
                 k = tr.target_test_kernel()
+            elif kind[0] == "guards":
+                k = tr.guards_kernel()
             else:
                 k = tr.where_kernel(kind[1], kind[2])
             out.append(f"/-- `{qual}` ({rel}:{func.lineno}); casts dropped: {tr.casts} -/")
